@@ -439,7 +439,8 @@ class Parser:
             cond = self.expr(nostruct=True)
             return ("while", cond, self.block())
         if v == "continue":
-            raise Unsupported("control flow construct `%s`" % v)
+            self.eat()
+            return ("continue",)
         if v == "move":
             self.eat()
             return self.primary(nostruct)
@@ -688,6 +689,10 @@ class Sym:
         if e[0] == "mcall" and e[2] == "state_mut" and not e[3]:
             r, p = self.lpath(e[1])
             return r, p + ["state"]
+        if e[0] == "mcall" and not e[3] and e[1] == ("path", ["self"]) and self.find_helper is not None:
+            h = self.find_helper(e[2])          # an accessor `fn x_mut(&mut self) -> &mut F { &mut self.path }`: the place it returns
+            if h is not None and not h[0][1] and h[0][2] is not None and not h[1]:
+                return self.lpath(h[0][2])
         raise Unsupported("assignment target is not a field path")
 
     def store(self, env, e, v):
@@ -733,13 +738,13 @@ class Sym:
         k = pat[0]
         if k == "pwild": return {}
         if k == "pid":
-            if len(pat) > 2 and pat[2] == "refmut" and where is not None: return {pat[1]: ("ref", where[0], where[1])}
+            if ((len(pat) > 2 and pat[2] == "refmut") or getattr(self, "allref", False)) and where is not None: return {pat[1]: ("ref", where[0], where[1])}
             return {pat[1]: v}
         if k == "ptuple":
             if v[0] != "tuple" or len(v[1]) != len(pat[1]): raise Unsupported("tuple pattern against %s" % v[0])
             out = {}
-            for p, x in zip(pat[1], v[1]):
-                b = self.pmatch(p, x)
+            for k_, (p, x) in enumerate(zip(pat[1], v[1])):
+                b = self.pmatch(p, x, None if where is None else (where[0], where[1] + [k_]))
                 if b is None: return None
                 out.update(b)
             return out
@@ -779,7 +784,7 @@ class Sym:
             out = {}
             for f, p in pat[2]:
                 if f not in v[1]: raise Unsupported("no field %s" % f)
-                b = self.pmatch(p, v[1][f])
+                b = self.pmatch(p, v[1][f], None if where is None else (where[0], where[1] + [f]))
                 if b is None: return None
                 out.update(b)
             return out
@@ -799,6 +804,22 @@ class Sym:
                     root, path = self.lpath(st[2])
                     env.vars[st[1][1]] = ("ref", root, path)
                     continue
+                if st[1][0] in ("pstruct", "ptuple") and st[2][0] == "addrmut":   # let Pat { a, b } = &mut place;  every binding aliases its field
+                    try:
+                        root, path = self.lpath(st[2][1])
+                    except Unsupported:
+                        root = None
+                    if root is not None:
+                        cur = env.get(root)
+                        if cur[0] == "ref": root, path = cur[1], cur[2] + path
+                        self.allref = True
+                        try:
+                            b_ = self.pmatch(st[1], self.ev(st[2][1], env), (root, list(path)))
+                        finally:
+                            self.allref = False
+                        if b_ is None: raise Unsupported("refutable let pattern does not match")
+                        env.vars.update(b_)
+                        continue
                 if st[1][0] == "pid" and st[2][0] == "addrmut":            # let x = &mut place;  x aliases the place
                     try:
                         root, path = self.lpath(st[2][1])
@@ -1006,6 +1027,7 @@ class Sym:
             inner = Env(env); inner.vars.update(b)
             return self.ev(e[3], inner)
         if k == "diverge": raise Unsupported("execution reaches %s!()" % e[1])
+        if k == "continue": raise Unsupported("`continue` outside the recognised loop shapes")
         raise Unsupported("expression kind %s" % k)
 
     def split_opt(self, v):
@@ -1044,6 +1066,13 @@ class Sym:
                 inner = Env(env)
                 inner.vars.update(self.pmatch(body[1], ev))
                 return self.block(body[3], inner)
+        if body is not None and body[0] == "match" and body[1][0] == "mcall" and body[1][2] == "push_back" and len(body[1][3]) == 1 and len(body[2]) == 2:
+            some_arm = next((a_ for a_ in body[2] if a_[0][0] == "ptstruct" and a_[0][1][-1] == "Some"), None)
+            none_arm = next((a_ for a_ in body[2] if a_[0] == ("ppath", ["None"])), None)
+            if some_arm and none_arm and none_arm[1] == ("continue",):
+                ev = self.fill(body[1], env)
+                inner = Env(env); inner.vars.update(self.pmatch(some_arm[0], ev))
+                return self.ev(some_arm[1], inner)
         raise Unsupported("loop of an unsupported shape")
 
     def fill(self, push_call, env):
